@@ -650,11 +650,11 @@ fn scenario_memtable_churn(out: &mut CaseOut, rng: &mut Rng, tier: &str) {
 pub fn run_case(tier: &str, seed: u64, idx: u64) -> CaseOut {
     let mut out = CaseOut::new();
     let mut rng = Rng::new(mix(&[seed, idx], "c05"));
-    // every 8th case: reader across flush; every 8th: timed park; every 16th: group commit; rest perturbation
+    // every 8th case: reader across flush; every 8th: timed park; three in sixteen: group commit; rest perturbation
     match idx % 16 {
         0 | 8 => scenario_reader_across_flush(&mut out, &mut rng, idx / 8),
         4 | 12 => scenario_timed_park(&mut out, &mut rng, idx / 4, tier),
-        2 => scenario_group_commit(&mut out, &mut rng),
+        2 | 6 | 14 => scenario_group_commit(&mut out, &mut rng),
         // (the churn scenario is slow: thousands of inserts into one skiplist; every 32nd case)
         10 if idx % 32 == 10 => scenario_memtable_churn(&mut out, &mut rng, tier),
         _ => scenario_perturbation(&mut out, &mut rng, tier),
